@@ -132,24 +132,79 @@ func (c powCfg) prescribedWith(chain []powBlk, parent int, height int64, back in
 	return nb, true
 }
 
-// pow <D> <G> <E> <M> <n> (<bits|x> <ts>){n} <height> <parent> <bits|x> <ts> <hash> <idok> <key> <sig>
+// pow  <D> <G> <E> <M> <n> (<bits|x> <ts>){n} <height> <parent> <bits|x> <ts> <hash> <idok> <key> <sig>
+// powf <D> <G> <E> <M> <n> (<bits|x> <ts> <par>){n} <main> <height> <parent> <bits|x> <ts> <hash> <idok> <key> <sig>
 // key: p proposer's own key / x another account's key / b not a key;  sig: v valid / w over other data / f other private key
+//
+// powf: the ledger is a block TREE.  Block i names block par (< i; -1: a pre-hash the ledger does not know) as its
+// parent and sits one above it (height 0 without parent); <main> is the index of the tip of the main chain: the
+// ledger answers QueryBlockByHeight / GetTipBlock from the ancestors of that block, QueryBlock by id from all blocks.
+// `pow` is the special case par = i-1, main = n-1.
 func execPow(line string, w []string) string {
+	forked := w[0] == "powf"
+	per := 2
+	if forked {
+		per = 3
+	}
 	if len(w) < 6 {
 		return "bad-op"
 	}
 	c := powCfg{D: uint32(parseBits(w[1])), G: atoi(w[2]), E: atoi(w[3]), M: uint32(parseBits(w[4]))}
 	n := int(atoi(w[5]))
-	if n < 1 || len(w) != 6+2*n+8 {
+	tail := 8
+	if forked {
+		tail = 9
+	}
+	if n < 1 || n > 250 || len(w) != 6+per*n+tail {
 		return "bad-op"
 	}
-	chain := make([]powBlk, n)
-	l := newStubLedger()
+	all := make([]powBlk, n)
+	pars := make([]int, n)
+	blks := make([]*blk, n)
 	for i := 0; i < n; i++ {
-		chain[i] = powBlk{bits: parseBits(w[6+2*i]), ts: atoi(w[7+2*i])}
-		l.put(&blk{proposer: acct(0).Address, height: int64(i), id: []byte{byte(i), 0xF}, pre: []byte{byte(i - 1), 0xF}, storage: powStorage(chain[i].bits), ts: chain[i].ts})
+		all[i] = powBlk{bits: parseBits(w[6+per*i]), ts: atoi(w[7+per*i])}
+		pars[i] = i - 1
+		if forked {
+			pars[i] = int(atoi(w[8+per*i]))
+			if pars[i] < -1 || pars[i] >= i {
+				return "bad-op"
+			}
+		}
+		b := &blk{proposer: acct(0).Address, id: []byte{byte(i), 0xF}, pre: []byte{0xEE, byte(i), 0xF0}, storage: powStorage(all[i].bits), ts: all[i].ts}
+		if pars[i] >= 0 {
+			b.pre = blks[pars[i]].id
+			b.height = blks[pars[i]].height + 1
+		}
+		blks[i] = b
 	}
-	r := w[6+2*n:]
+	r := w[6+per*n:]
+	mainTip := n - 1
+	if forked {
+		mainTip = int(atoi(r[0]))
+		r = r[1:]
+		if mainTip < 0 || mainTip >= n {
+			return "bad-op"
+		}
+	}
+	// pathTo(i): the line of ancestors of block i, oldest first
+	pathTo := func(i int) []int {
+		var p []int
+		for ; i >= 0; i = pars[i] {
+			p = append([]int{i}, p...)
+		}
+		return p
+	}
+	l := newStubLedger()
+	onMain := map[int]bool{}
+	for _, i := range pathTo(mainTip) {
+		l.put(blks[i])
+		onMain[i] = true
+	}
+	for i := range blks {
+		if !onMain[i] {
+			l.putSide(blks[i])
+		}
+	}
 	height, parent, cbits, cts := atoi(r[0]), int(atoi(r[1])), parseBits(r[2]), atoi(r[3])
 	hash, okh := new(big.Int).SetString(r[4], 10)
 	if !okh || hash.Sign() < 0 || hash.Cmp(two256) >= 0 {
@@ -171,8 +226,15 @@ func execPow(line string, w []string) string {
 	}
 	const miner, third = 1, 2
 	b := &blk{proposer: acct(miner).Address, height: height, id: id, storage: powStorage(cbits), ts: cts}
+	// the candidate's own history: what the property lets the target depend on
+	var chain []powBlk
+	own := -1
 	if parent >= 0 && parent < n {
-		b.pre = l.chain[parent].id
+		b.pre = blks[parent].id
+		for _, i := range pathTo(parent) {
+			chain = append(chain, all[i])
+		}
+		own = len(chain) - 1
 	} else {
 		b.pre = []byte{0xEE, 0xEE}
 	}
@@ -211,11 +273,11 @@ func execPow(line string, w []string) string {
 		// ones, timestamp not before the parent's, id recomputes, signed by the proposer
 		var why []string
 		key := ""
-		want, has := c.specPrescribed(chain, parent, height)
+		want, has := c.specPrescribed(chain, own, height)
 		switch {
 		case cbits < 0 || !has || uint32(cbits) != want:
 			key = "pow-accept-wrong-target"
-			why = append(why, fmt.Sprintf("target bits %s, prescribed %d (defined=%v)", bitsTok(cbits), want, has))
+			why = append(why, fmt.Sprintf("target bits %s, the block's own ancestors prescribe %d (defined=%v)", bitsTok(cbits), want, has))
 		case hash.Cmp(c.specTarget(want)) > 0:
 			key = "pow-accept-hash-above-target"
 			why = append(why, fmt.Sprintf("hash %s above target %s", hash, c.specTarget(want)))
@@ -227,9 +289,9 @@ func execPow(line string, w []string) string {
 			key = "pow-accept-unknown-parent"
 			why = append(why, "parent not in the ledger")
 		}
-		if key == "" && cts < chain[parent].ts {
+		if key == "" && cts < all[parent].ts {
 			key = "pow-accept-timestamp-before-parent"
-			why = append(why, fmt.Sprintf("timestamp %d before the parent's %d", cts, chain[parent].ts))
+			why = append(why, fmt.Sprintf("timestamp %d before the parent's %d", cts, all[parent].ts))
 		}
 		if key == "" && r[5] != "1" {
 			key = "pow-accept-bad-blockid"
